@@ -33,7 +33,11 @@ LitVals == <<SymA, SymB, SymC, FalseV, NilV, CharV(97)>>
 P(k) == [k |-> "p", n |-> k]
 I(n) == [k |-> "int", n |-> n]
 Lt(i) == [k |-> "lit", n |-> i]
-ArgVal(d) == CASE d.k = "p" -> pool[d.n] [] d.k = "int" -> IntV(d.n) [] OTHER -> LitVals[d.n]
+\* exact integers that reach the procedure in another internal representation (the harness writes R(1) as (/ 4 2),
+\* R(2) as a difference of two bignums equal to 2, R(3) as (/ 3 3)): the same numbers for eqv?, equal?, memv, assv
+R(i) == [k |-> "rep", n |-> i]
+RepVals == <<IntV(2), IntV(2), IntV(1)>>
+ArgVal(d) == CASE d.k = "p" -> pool[d.n] [] d.k = "int" -> IntV(d.n) [] d.k = "rep" -> RepVals[d.n] [] OTHER -> LitVals[d.n]
 
 \* ---- initial pools (five variants).  Each is a sequence of construction operations executed by
 \* the same Step machinery, so the harness builds the pool exactly as the specification does.
@@ -88,7 +92,7 @@ Slots == 1..N
 IdxFor(len) == {-1, 0, 1, len - 1, len, len + 1, 100} \cap (-1..100)
 LenOf(v) == IF v.t = "vec" THEN Len(hp[v.v].e)
             ELSE IF v.t = "pair" THEN Len(ListToSeq(v, hp).s) ELSE 0
-Keys == {Lt(1), Lt(2), I(1), I(2), Lt(4), Lt(5), Lt(6), I(7)}
+Keys == {Lt(1), Lt(2), I(1), I(2), Lt(4), Lt(5), Lt(6), I(7), R(1), R(2), R(3)}
 Vals == {P(k) : k \in Slots} \cup {I(9), Lt(3), Lt(5)}
 
 Ops1 == {"car", "cdr", "length", "reverse", "list?", "vector-length", "vector->list", "list->vector",
